@@ -640,8 +640,9 @@ WS_HANDLER = '.ws.m::{wn::wn+1;wc::x;:[wn=1;m1::y;:[wn=2;m2::y;:[wn=3;m3::y;m4::
 WS_ECHO = '.ws.m::{wn::wn+1;x(y)}'
 END = '<end>'
 
-JSON_KINDS_QUICK = (42, 'str', [1, 2, 3], {'a': {'b': [1, {'c': 'd'}]}}, None, True, [1, 'a'])
-JSON_KINDS_MORE = (1.5, False, [], {}, [[1, 2], [3, 4]], 'hé ✓', {'k': [1.5, 'v'], 'n': None})
+# incl. the empty / zero member of a kind (0, ""; thorough: 0.0, false, [], {}): falsy in Python, a message all the same
+JSON_KINDS_QUICK = (42, 'str', [1, 2, 3], {'a': {'b': [1, {'c': 'd'}]}}, None, True, [1, 'a'], 0, '')
+JSON_KINDS_MORE = (1.5, False, [], {}, [[1, 2], [3, 4]], 'hé ✓', {'k': [1.5, 'v'], 'n': None}, 0.0)
 
 SEND_VALUES = (
     ('42', 42), ('1.5', 1.5), ('"hello"', 'hello'), ('"hé ✓"', 'hé ✓'), ('[1 2 3]', [1, 2, 3]),
